@@ -42,44 +42,33 @@ UN_REF = {"-": "(-1) * arg", "+": "arg"}
 
 
 def op_table(ctx: Ctx, rule: str, fname: str, ref: dict, operators: list[str]):
+    """For each operator literal: specialise the function for that literal (partial evaluation over constants) and
+    compare the term it returns with the language definition."""
     f = ctx.sm.func("expressions.py", fname)
-    paths = te.enumerate_paths(f.node.body)
-    opname = f.params[0]
-    found = {}
-    for p in paths:
-        ev = te.TermEval(env={}, atoms={})
-        for st in p.effects:
-            if isinstance(st, ast.Assign) and len(st.targets) == 1 and isinstance(st.targets[0], ast.Name):
-                ev.env[st.targets[0].id] = ev.ev(st.value)
-        pos = [a for a, pol in p.lits if pol]
-        ops = []
-        for a in pos:
-            t = ast.parse(a, mode="eval").body
-            if isinstance(t, ast.Compare) and isinstance(t.ops[0], ast.Eq) and norm(t.left) == opname and const_str(t.comparators[0]) is not None:
-                ops.append(const_str(t.comparators[0]))
-        if p.exit == "return" and len(ops) == 1:
-            found[ops[0]] = (ev.ev(p.exit_node.value), p)
-        elif p.exit == "raise" and not ops:
-            found["<otherwise>"] = ("raise", p)
-    for op in operators:
+    mod = ctx.sm.module("expressions.py")
+    pe = te.PEval(mod, identity={"relational_to_piecewise", "sympify"})
+    params = f.params
+    for op in operators + ["<other>"]:
+        args = {params[0]: ("const", op)}
+        for p_ in params[1:]:
+            args[p_] = te.atom(p_)
+        kind, val = pe.outcome(f.node, args)
         key = f.key(f"operator::{op}")
         if op in ref:
-            want = te.parse_term(ref[op])
-            got = found.get(op)
+            env = {p_: te.atom(p_) for p_ in params[1:]}
+            want = te.parse_term(ref[op].replace("fst", params[1]).replace("snd", params[2] if len(params) > 2 else "snd").replace("arg", params[1]) if fname == "unary_op" else ref[op].replace("fst", params[1]).replace("snd", params[2]), env=env)
+            ok = kind == "return" and val == want
             ctx.check(
-                got is not None and got[0] == want,
+                ok,
                 rule,
                 key,
                 f"`{op}` -> {te.show(want)}",
-                f"{fname}: operator `{op}` builds {te.show(got[0]) if got else 'nothing (no path returns for it)'}; the language defines it as {te.show(want)}",
-                f.where(got[1].exit_node) if got else f.where(),
-                trace=[f"found   : {te.show(got[0]) if got else None}", f"expected: {te.show(want)}"],
+                f"{fname}: operator `{op}` " + (f"builds {te.show(val)}" if kind == "return" and isinstance(val, tuple) and val[0] not in ('callable', 'dict', 'const') else f"gives {kind} {val if kind != 'unknown' else '(shape not understood)'}") + f"; the language defines it as {te.show(want)}",
+                f.where(),
+                trace=[f"found   : {te.show(val) if kind == 'return' and isinstance(val, tuple) and val[0] not in ('callable', 'dict', 'const') else (kind, val)}", f"expected: {te.show(want)}"],
             )
         else:
-            got = found.get(op)
-            ctx.check(got is None and "<otherwise>" in found, rule, key, f"`{op}` is rejected explicitly", f"{fname}: the grammar can produce operator `{op}`; it must either be undefined (raise) or be given a vetted meaning, found {te.show(got[0]) if got else 'no raise'}", f.where())
-    extra = [o for o in found if o not in operators and o != "<otherwise>"]
-    ctx.check(not extra, rule, f.key("no-extra-operators"), "no operator outside the grammar", f"{fname} handles operators {extra} that the grammar cannot produce", f.where())
+            ctx.check(kind == "raise", rule, key, f"`{op}` is rejected explicitly", f"{fname}: the grammar can produce operator `{op}` (or anything else); it must be rejected with an exception, found {kind} {te.show(val) if kind == 'return' and isinstance(val, tuple) and val and val[0] not in ('const',) else val}", f.where())
 
 
 def run(ctx: Ctx):
@@ -144,6 +133,19 @@ def run(ctx: Ctx):
     for name, want in LADDER.items():
         got = G.shape(name)
         ctx.check(got == want, "R01.c", f"src/gotranx/ode.lark::{name}", got, f"grammar rule `{name}` is `{got}`; the vetted precedence ladder has `{want}` (precedence / associativity / tree shape seen by build_expression changed)", "src/gotranx/ode.lark")
+
+    TERMS = {
+        "SCIENTIFIC_NUMBER": G.terms.get("SCIENTIFIC_NUMBER", {}).get("shape", ""),
+        "SIGN": '("+" | "-")',
+        "PI": '"pi"',
+    }
+    sn = TERMS["SCIENTIFIC_NUMBER"]
+    number = G.terms.get("NUMBER", {}).get("shape", "")
+    ok_sn = bool(number) and sn == f'{number} (("E" | "e") (("+" | "-"))? {number})?'
+    ctx.check(ok_sn, "R01.c", "src/gotranx/ode.lark::SCIENTIFIC_NUMBER", "NUMBER ((E|e) SIGN? NUMBER)?  (unsigned: a leading sign is an operator)", f"terminal SCIENTIFIC_NUMBER is `{sn[:120]}`; it must be an unsigned NUMBER with an optional exponent - a sign glued into the literal changes the meaning of -2**2 and x**-2**2", "src/gotranx/ode.lark")
+    for tn in ("SIGN", "PI"):
+        got = G.terms.get(tn, {}).get("shape")
+        ctx.check(got == TERMS[tn], "R01.c", f"src/gotranx/ode.lark::{tn}", f"{tn}: {got}", f"terminal {tn} is `{got}`, vetted `{TERMS[tn]}`", "src/gotranx/ode.lark")
 
     # ---- R01.d function vocabulary ----------------------------------------------------------------------
     ctx.rule("R01.d", "function vocabulary: every funcname / logicalfuncname of the grammar is bound to the sympy object with the documented meaning; Conditional / ContinuousConditional bind their children to cond, true, false (, sigma)", floor=26)
@@ -259,31 +261,48 @@ def run(ctx: Ctx):
         oka = any(f"{av}.value.dependencies" in s_ for s_ in srcs)
     so = any(isinstance(c, ast.Call) and norm(c.func) == "sorter.static_order" for c in ast.walk(sa.node))
     ctx.check(oka and so, "R01.f", sa.key("node-predecessors"), "sorter.add(name, *dependencies of that assignment); static_order()", "sort_assignments does not feed graphlib with (assignment name, *its own dependencies) or does not use static_order(): definitions could be printed after their use", sa.where())
-    cg = sm.func("codegen/base.py", "CodeGenerator.rhs")
-    loops = [n for n in cg.node.body if isinstance(n, ast.For)]
+    from . import util
+
+    cg = util.nf(ctx, "codegen/base.py", "CodeGenerator.rhs")
+    loops = [n for n in ast.walk(cg.node) if isinstance(n, ast.For) and "sorted_assignments" in util.ctext(cg, n.iter) and isinstance(n.target, ast.Name)]
     okr = False
+    why = "no loop over the sorted assignments"
+    acc_list = None
     if loops:
         l = loops[0]
         x = l.target.id
-        first = l.body[0]
-        okr = isinstance(first, ast.Expr) and norm(first.value) == f"values_lst.append(self._doprint({x}.symbol, {x}.expr, use_variable_prefix=True))"
-        stores = [s for s in ast.walk(l) if isinstance(s, ast.Call) and norm(s.func) == "self._doprint" and isinstance(s.args[0], ast.Subscript)]
-        okr = okr and bool(stores) and norm(stores[0].args[1]) == f"{x}.symbol" and stores[0].lineno > first.lineno
-    ctx.check(okr, "R01.f", cg.key("define-then-store"), "x.symbol = x.expr is printed before values[k] = x.symbol", "CodeGenerator.rhs does not print the definition of each assignment before storing it into the result", cg.where())
+        okr = True
+        saw_store = False
+        for p_ in te.enumerate_paths(l.body):
+            defs_at, stores_at = [], []
+            for i, st in enumerate(p_.effects):
+                for c in ast.walk(st):
+                    if isinstance(c, ast.Call) and (dotted(c.func) or "").endswith("_doprint") and len(c.args) >= 2:
+                        a0, a1 = util.ctext(cg, c.args[0]), util.ctext(cg, c.args[1])
+                        if a0 == f"{x}.symbol" and a1 == f"{x}.expr":
+                            defs_at.append(i)
+                        elif isinstance(c.args[0], ast.Subscript) and a1 == f"{x}.symbol":
+                            stores_at.append(i)
+                if isinstance(st, ast.Expr) and isinstance(st.value, ast.Call) and isinstance(st.value.func, ast.Attribute) and st.value.func.attr == "append" and isinstance(st.value.func.value, ast.Name):
+                    acc_list = acc_list or st.value.func.value.id
+            if not defs_at:
+                okr, why = False, f"path [{p_.pred()}] does not print {x}.symbol = {x}.expr"
+            if stores_at:
+                saw_store = True
+                if not defs_at or min(stores_at) < min(defs_at):
+                    okr, why = False, f"path [{p_.pred()}] stores the value before the assignment is printed"
+        if not saw_store:
+            okr, why = False, "no path stores a derivative into the result array"
+    ctx.check(okr, "R01.f", cg.key("define-then-store"), "x.symbol = x.expr is printed before values[k] = x.symbol", f"CodeGenerator.rhs: {why}", cg.where())
     T = tm.TemplateModel(sm)
     sk = T.skeleton("templates/python.py", "method")
     order = ["{indent_states}", "{indent_parameters}", "{indent_missing_variables}", "{shape_info}", "{return_name} = {values_type}", "{indent_values}", "{indent_return}"]
     pos = [sk.raw.find(o) for o in order]
     ctx.check(all(p >= 0 for p in pos) and pos == sorted(pos), "R01.f", sk.func.key("statement-order"), "states, parameters, missing, allocation, body, return", f"python method template: statement order is {pos}", sk.func.where())
-    tc = [c for c in find_calls(cg.node, "template.method")]
-    kws = {k.arg: norm(k.value) for k in tc[0].keywords} if tc else {}
-    ctx.check(kws.get("states") == "states" and kws.get("parameters") == "parameters" and kws.get("values") == "values" and kws.get("name", "").strip("'\"") == "rhs", "R01.f", cg.key("template-wiring"), "unpacking and body reach their own template slots", f"CodeGenerator.rhs passes {kws} to the method template", cg.where())
-
-    # ---- R01.i the derivative of each state lands in that state's slot --------------------------------
-    ctx.rule("R01.i", "rhs stores the derivative of each state at the slot that state_index / init_state_values / the state unpacking use (STATE slot family)", floor=6)
-    from .c04 import slot_families
-
-    slot_families(ctx, "R01.i", only_family="STATE", floor=False, producers=lambda p: p.func.qualname in ("CodeGenerator.initial_state_values", "CodeGenerator._state_assignments", "CodeGenerator.rhs"))
+    tc = util.template_method_call(cg)
+    okw = tc is not None and (const_str(call_kw(tc, "name")) == "rhs") and call_kw(tc, "values") is not None and acc_list is not None and util.depends_on(cg.node, call_kw(tc, "values"), acc_list)
+    okw = okw and call_kw(tc, "states") is not None and call_kw(tc, "parameters") is not None and util.ctext(cg, call_kw(tc, "states")) != util.ctext(cg, call_kw(tc, "parameters"))
+    ctx.check(okw, "R01.f", cg.key("template-wiring"), "the printed body reaches the template's `values` slot of the function named rhs", "CodeGenerator.rhs does not hand the printed assignments to template.method(name='rhs', values=...)", cg.where())
 
     ctx.rule("R01.j", "assembly: every expression is built from its own tree with the model-wide symbol table, printed by the backend printer and returned unmodified (no nan_to_num); the module contains imports, index/init functions, rhs", floor=8)
     assembly(ctx, "R01.j")
@@ -316,6 +335,7 @@ def run(ctx: Ctx):
                 ctx.fail("R01.h", key, f"{name} is printed by the inherited {r}, which has not been vetted", "")
             else:
                 ctx.check(v.get("ok", False), "R01.h", key, f"{r} (vetted)", f"numpy printer: {name} falls through to {r}: {v.get('why', 'not value-preserving')}", "")
+    printers.check_no_unvetted_override(ctx, "R01.h", "numpy", skip=("sign", "DiracDelta"))
     fl = M.method("numpy", "_print_Float")
     okfl = fl is not None and any(isinstance(n, ast.Return) and norm(n.value) in ("self._print(str(float(flt)))", "self._print(repr(float(flt)))", "repr(float(flt))", "str(float(flt))") for n in ast.walk(fl.node))
     ctx.check(okfl, "R01.h", "numpy-printer::Float::repr", "Float -> shortest round-trip repr", "numpy printer: a Float is not printed as str(float(value)) (digits would be lost or added)", fl.where() if fl else "")
